@@ -15,8 +15,9 @@
      passed over, starts behind, ends too early and skipped, entered; tied to the method by correspondence on encoded trees)
      on every tree whose children lie inside their parent, in order and without overlap, the node returned is the root or
      holds the span, and none of its children holds it: it is the lowest node that contains the span.
+   - (models/FindLoc.v find_in) find_in_loc answers with the FIRST node of the walk over the descendants that lies within the span: what it
+     returns lies within, and when it returns nothing no descendant does (overlapping siblings included).
    NOT PROVED: the source scanners (next_frag, prev_frag, next_find, delimiters), pars(), the computed locations,
-   that find_in_loc finds a node whenever one lies within the span (only: what it returns does, and is a descendant),
    find_loc: decided by the tokenize-based oracle and the brute-force search oracle in py/props/C06.py (partial).
    - (models/FindLoc.v, allow_exact = 'top' / False) relative to the path of nodes the default search enters (on a well-formed
      tree a chain: each a child of the one before, each holding the span): 'top' returns the FIRST node on that path whose
@@ -62,9 +63,16 @@ Theorem C06_find_scan_over_descendants_is_the_scan_over_children : forall a b cs
 Proof. exact scan_is_lscan. Qed.
 Print Assumptions C06_find_scan_over_descendants_is_the_scan_over_children.
 
-Theorem C06_find_in_loc_answer_lies_within_the_span : forall a b fuel self x, descend_in fuel a b self = Some x -> within a b x /\ In x (desc self).
-Proof. exact find_in_sound. Qed.
-Print Assumptions C06_find_in_loc_answer_lies_within_the_span.
+Theorem C06_find_in_loc_returns_the_first_node_of_the_walk_within_the_span : forall a b fuel todo, sizes todo < fuel ->
+  scan_in fuel a b todo = find (fun x => inside x a b) (descs todo).
+Proof. exact scan_in_is_first. Qed.
+Print Assumptions C06_find_in_loc_returns_the_first_node_of_the_walk_within_the_span.
+
+Theorem C06_find_in_loc_sound_and_complete : forall a b fuel todo, sizes todo < fuel ->
+  (forall x, scan_in fuel a b todo = Some x -> within a b x /\ In x (descs todo)) /\
+  (scan_in fuel a b todo = None -> forall x, In x (descs todo) -> ~ within a b x).
+Proof. intros a b fuel todo Hf. split; [intros x; apply find_in_sound; exact Hf|apply find_in_complete; exact Hf]. Qed.
+Print Assumptions C06_find_in_loc_sound_and_complete.
 
 Theorem C06_find_contains_loc_top_returns_the_first_exact_node_on_the_descent : forall a b fuel self,
   descend_m MTop fuel a b self = first_or (fun x => exact x a b) (path fuel a b self) (last (path fuel a b self) self).
